@@ -5,6 +5,7 @@
 //! statement-level oracles. Writes `<out>/result.json`. Exit code 0 always (the verdict is check.py's).
 mod common;
 mod groups;
+mod server;
 use common::*;
 
 fn groups_for(prop: &str, ctx: &Ctx) -> Vec<Box<dyn Group>> {
@@ -12,6 +13,7 @@ fn groups_for(prop: &str, ctx: &Ctx) -> Vec<Box<dyn Group>> {
     match prop {
         "C19" => vec![Box::new(c19::Split), Box::new(c19::Msg), Box::new(c19::Dispatch::new(ctx))],
         "C09" => vec![Box::new(c09::Reply), Box::new(c09::Tiling)],
+        "C12" => vec![Box::new(c12::Run), Box::new(c12::Serve)],
         _ => vec![],
     }
 }
@@ -51,7 +53,9 @@ fn main() {
         }
         i += 1;
     }
-    std::panic::set_hook(Box::new(|_| {}));
+    if std::env::var("VERIF_DEBUG").is_err() {
+        std::panic::set_hook(Box::new(|_| {}));
+    }
     std::fs::create_dir_all(&out).unwrap();
     let work = std::path::PathBuf::from("/verif/harness/target/work").join(&prop);
     std::fs::create_dir_all(&work).unwrap();
